@@ -757,4 +757,750 @@ theorem init_tinv (c : Cfg V) (localKey : Nat) : TInv c (Table.init localKey : T
   rw [hb]
   exact ⟨binv_empty c _, bkeys_empty _⟩
 
+
+/-! ### removal of a node -/
+
+theorem position_some {b : Bucket V} {key pos : Nat} (h : b.position key = some pos) :
+    ∃ old, b.nodes[pos]? = some old ∧ old.key = key := by
+  unfold Bucket.position at h
+  rw [List.findIdx?_eq_some_iff_getElem] at h
+  obtain ⟨hlt, hk, _⟩ := h
+  exact ⟨b.nodes[pos], List.getElem?_eq_getElem hlt, by simpa using hk⟩
+
+theorem removeAt_perm {α} {l : List α} {pos : Nat} {x : α} (h : l[pos]? = some x) :
+    l.Perm (x :: removeAt l pos) := by
+  obtain ⟨hlt, hx⟩ := List.getElem?_eq_some_iff.1 h
+  have h1 : l = l.take pos ++ x :: l.drop (pos + 1) := by
+    rw [← hx, ← List.drop_eq_getElem_cons hlt, List.take_append_drop]
+  unfold removeAt
+  have h2 : (l.take pos ++ x :: l.drop (pos + 1)).Perm (x :: (l.take pos ++ l.drop (pos + 1))) :=
+    List.perm_middle
+  rwa [← h1] at h2
+
+theorem key_not_mem_removeAt {nodes : List (Node V)} {pos : Nat} {old : Node V}
+    (hnd : (nodes.map (·.key)).Nodup) (h : nodes[pos]? = some old) :
+    old.key ∉ (removeAt nodes pos).map (·.key) := by
+  have hp := (removeAt_perm h).map (·.key)
+  rw [hp.nodup_iff] at hnd
+  simp only [List.map_cons, List.nodup_cons] at hnd
+  exact hnd.1
+
+/-- Removing one node (with either way of recomputing `first_connected_pos`). -/
+theorem removed_ninv {c : Cfg V} {tick : Nat} {nodes : List (Node V)} {fcp : Option Nat}
+    {pos : Nat} {old : Node V} (hn : NInv c tick nodes fcp) (h : nodes[pos]? = some old) :
+    NInv c tick (removeAt nodes pos) (fcpU nodes fcp pos old) ∧
+    NInv c tick (removeAt nodes pos) (fcpR nodes fcp pos) := by
+  obtain ⟨h1, h2⟩ := split_remove hn.split h
+  have := hn.of_sublist (removeAt_sublist nodes pos) h1
+  exact ⟨this, h2 ▸ this⟩
+
+/-- The bucket left by `remove` / a failed `update_value`, before the pending node is applied. -/
+theorem removed_inv {c : Cfg V} {tick : Nat} {b : Bucket V} {pos : Nat} {old : Node V}
+    (hb : BInv c tick b) (h : b.nodes[pos]? = some old) :
+    BInv c tick (Bucket.fcpForRemoval { b with nodes := removeAt b.nodes pos } pos) := by
+  have : Bucket.fcpForRemoval { b with nodes := removeAt b.nodes pos } pos =
+      { nodes := removeAt b.nodes pos, fcp := fcpR b.nodes b.fcp pos, pending := b.pending } := by
+    unfold Bucket.fcpForRemoval fcpR; cases b.fcp <;> rfl
+  rw [this]
+  exact binv_mk (removed_ninv (binv_iff.1 hb).1 h).2
+    ((binv_iff.1 hb).2.of_sublist (removeAt_sublist _ _))
+
+theorem removed_keys {P : Nat → Prop} {b : Bucket V} {pos : Nat} (hb : BKeys P b) :
+    BKeys P (Bucket.fcpForRemoval { b with nodes := removeAt b.nodes pos } pos) :=
+  ⟨fun n hn => hb.1 n ((removeAt_sublist _ _).subset hn), hb.2⟩
+
+theorem remove_inv {c : Cfg V} {now tick : Nat} {b : Bucket V} {key : Nat} (hb : BInv c tick b) :
+    BInv c tick (b.remove c now tick key).1 := by
+  unfold Bucket.remove
+  cases hpos : b.position key with
+  | none => exact hb
+  | some pos =>
+    obtain ⟨old, hold, _⟩ := position_some hpos
+    exact applyPending_inv c now tick _ (removed_inv hb hold)
+
+theorem remove_keys {c : Cfg V} {now tick : Nat} {b : Bucket V} {key : Nat} {P : Nat → Prop}
+    (hb : BKeys P b) : BKeys P (b.remove c now tick key).1 := by
+  unfold Bucket.remove
+  cases hpos : b.position key with
+  | none => exact hb
+  | some pos => exact applyPending_keys (removed_keys hb)
+
+/-! ### `updateStatus` -/
+
+/-- The bucket into which `update_status` re-inserts the node. -/
+def usBucket (b : Bucket V) (pos : Nat) (old : Node V) (conn : Bool) : Bucket V :=
+  { nodes := removeAt b.nodes pos, fcp := fcpU b.nodes b.fcp pos old,
+    pending := if pos == 0 && conn then none else b.pending }
+
+/-- The node `update_status` re-inserts. -/
+def usNode (tick : Nat) (old : Node V) (conn : Bool) (dir : Option Bool) : Node V :=
+  { old with st := { conn := conn, incoming := dir.getD old.st.incoming }, stamp := tick }
+
+def InsertRes.okForUpdate : InsertRes → Prop
+  | .inserted | .tooManyIncoming | .failedFilter => True
+  | _ => False
+
+theorem updateStatus_some {c : Cfg V} {now tick : Nat} {b : Bucket V} {key pos : Nat}
+    {old : Node V} {conn : Bool} {dir : Option Bool}
+    (hpos : b.position key = some pos) (hold : b.nodes[pos]? = some old) :
+    (b.updateStatus c now tick key conn dir).1 =
+      (Bucket.insert c now (usBucket b pos old conn) (usNode tick old conn dir)).1 ∧
+    ((Bucket.insert c now (usBucket b pos old conn) (usNode tick old conn dir)).2.okForUpdate →
+      (b.updateStatus c now tick key conn dir).2 ≠ .panic) := by
+  unfold Bucket.updateStatus
+  simp only [hpos, hold]
+  generalize hx : Bucket.insert c now _ _ = x
+  have hx' : Bucket.insert c now (usBucket b pos old conn) (usNode tick old conn dir) = x := by
+    rw [← hx]; cases dir <;> rfl
+  rw [hx']
+  obtain ⟨x1, x2⟩ := x
+  cases x2 <;> simp [InsertRes.okForUpdate]
+  constructor <;> (repeat' split) <;> simp
+
+theorem updateStatus_none {c : Cfg V} {now tick : Nat} {b : Bucket V} {key : Nat}
+    {conn : Bool} {dir : Option Bool} (hpos : b.position key = none) :
+    ((b.updateStatus c now tick key conn dir).1 = b ∨
+      ∃ p st', b.pending = some p ∧ (b.updateStatus c now tick key conn dir).1 =
+        { b with pending := some { p with node := { p.node with st := st' } } }) ∧
+    (b.updateStatus c now tick key conn dir).2 ≠ .panic := by
+  unfold Bucket.updateStatus
+  simp only [hpos]
+  cases hp : b.pending with
+  | none => simp
+  | some p =>
+    simp only
+    by_cases hk : (p.node.key == key) = true
+    · rw [if_pos hk]
+      exact ⟨Or.inr ⟨p, _, rfl, rfl⟩, by simp⟩
+    · rw [if_neg hk]; simp
+
+theorem usBucket_inv {c : Cfg V} {tick : Nat} {b : Bucket V} {pos : Nat} {old : Node V}
+    {conn : Bool} (hb : BInv c tick b) (hold : b.nodes[pos]? = some old) :
+    BInv c tick (usBucket b pos old conn) := by
+  refine binv_mk (removed_ninv (binv_iff.1 hb).1 hold).1 ?_
+  have := (binv_iff.1 hb).2.of_sublist (removeAt_sublist b.nodes pos)
+  by_cases h : (pos == 0 && conn) = true
+  · rw [if_pos h]; exact pfresh_none _
+  · rw [if_neg h]; exact this
+
+theorem usBucket_keys {P : Nat → Prop} {b : Bucket V} {pos : Nat} {old : Node V}
+    {conn : Bool} (hb : BKeys P b) : BKeys P (usBucket b pos old conn) := by
+  refine ⟨fun n hn => hb.1 n ((removeAt_sublist _ _).subset hn), ?_⟩
+  intro p hp
+  unfold usBucket at hp
+  by_cases h : (pos == 0 && conn) = true
+  · simp [h] at hp
+  · simp only [h] at hp; exact hb.2 p hp
+
+theorem updateStatus_inv {c : Cfg V} {now tick : Nat} {b : Bucket V} {key : Nat}
+    {conn : Bool} {dir : Option Bool} (hb : BInv c tick b) :
+    BInv c tick (b.updateStatus c now tick key conn dir).1 := by
+  cases hpos : b.position key with
+  | none =>
+    rcases (updateStatus_none (c := c) (now := now) (tick := tick) (conn := conn) (dir := dir)
+      hpos).1 with h | ⟨p, st', hp, h⟩
+    · rw [h]; exact hb
+    · rw [h]
+      refine binv_mk (binv_iff.1 hb).1 ?_
+      intro p' hp'
+      cases hp'
+      exact hb.pendingFresh p hp
+  | some pos =>
+    obtain ⟨old, hold, _⟩ := position_some hpos
+    rw [(updateStatus_some hpos hold).1]
+    exact insert_inv (usBucket_inv hb hold) rfl
+
+theorem updateStatus_keys {c : Cfg V} {now tick : Nat} {b : Bucket V} {key : Nat}
+    {conn : Bool} {dir : Option Bool} {P : Nat → Prop} (hb : BKeys P b) :
+    BKeys P (b.updateStatus c now tick key conn dir).1 := by
+  cases hpos : b.position key with
+  | none =>
+    rcases (updateStatus_none (c := c) (now := now) (tick := tick) (conn := conn) (dir := dir)
+      hpos).1 with h | ⟨p, st', hp, h⟩
+    · rw [h]; exact hb
+    · rw [h]
+      refine ⟨hb.1, ?_⟩
+      intro p' hp'
+      cases hp'
+      exact hb.2 p hp
+  | some pos =>
+    obtain ⟨old, hold, _⟩ := position_some hpos
+    rw [(updateStatus_some hpos hold).1]
+    exact insert_keys (usBucket_keys hb) (hb.1 old (List.mem_of_getElem? hold))
+
+/-- Re-insertion by `update_status` can only succeed or be refused by the incoming limit / the
+bucket filter. -/
+theorem usInsert_ok {c : Cfg V} {now tick : Nat} {b : Bucket V} {pos : Nat} {old : Node V}
+    {conn : Bool} {dir : Option Bool} (hb : BInv c tick b) (hold : b.nodes[pos]? = some old) :
+    (Bucket.insert c now (usBucket b pos old conn) (usNode tick old conn dir)).2.okForUpdate := by
+  have hlt : pos < b.nodes.length := (List.getElem?_eq_some_iff.1 hold).1
+  have hlen : (usBucket b pos old conn).nodes.length < 16 := by
+    show (removeAt b.nodes pos).length < 16
+    rw [removeAt_length _ _ hlt]; have := hb.len; omega
+  have hnf : (usBucket b pos old conn).isFull = false := isFull_false_iff.2 hlen
+  have hposn : (usBucket b pos old conn).position (usNode tick old conn dir).key = none :=
+    position_none_iff.2 (key_not_mem_removeAt (old := old) hb.keysNodup hold)
+  rcases insert_cases c now (usBucket b pos old conn) (usNode tick old conn dir) with
+    ⟨_, h1, h2, h3, h4⟩ | ⟨n0, _, _, hfull, _⟩ | ⟨h, _⟩
+  · generalize (Bucket.insert c now (usBucket b pos old conn) (usNode tick old conn dir)).2 = r
+      at h1 h2 h3 h4 ⊢
+    cases r with
+    | inserted => exact absurd rfl h1
+    | pending k => exact absurd rfl (h2 k)
+    | failedFilter => trivial
+    | tooManyIncoming => trivial
+    | full => have := h4 rfl; rw [hnf] at this; cases this
+    | nodeExists => have := h3 rfl; rw [hposn] at this; cases this
+  · rw [hnf] at hfull; cases hfull
+  · rw [h]; trivial
+
+theorem updateStatus_ne_panic {c : Cfg V} {now tick : Nat} {b : Bucket V} {key : Nat}
+    {conn : Bool} {dir : Option Bool} (hb : BInv c tick b) :
+    (b.updateStatus c now tick key conn dir).2 ≠ .panic := by
+  cases hpos : b.position key with
+  | none => exact (updateStatus_none hpos).2
+  | some pos =>
+    obtain ⟨old, hold, _⟩ := position_some hpos
+    exact (updateStatus_some hpos hold).2 (usInsert_ok hb hold)
+
+/-! ### `updateValue` -/
+
+/-- Everything the invariant looks at in a node. -/
+def sig (n : Node V) : Nat × Status × Nat := (n.key, n.st, n.stamp)
+
+theorem mem_of_sig {a b : List (Node V)} (h : a.map sig = b.map sig) {n : Node V} (hn : n ∈ a) :
+    ∃ m ∈ b, sig m = sig n := by
+  have : sig n ∈ b.map sig := h ▸ List.mem_map_of_mem hn
+  obtain ⟨m, hm, e⟩ := List.mem_map.1 this
+  exact ⟨m, hm, e⟩
+
+theorem pairwise_of_sig {a b : List (Node V)} (h : a.map sig = b.map sig)
+    (hb : b.Pairwise (fun x y => x.stamp ≤ y.stamp)) : a.Pairwise (fun x y => x.stamp ≤ y.stamp) := by
+  have h1 : (b.map sig).Pairwise (fun x y => x.2.2 ≤ y.2.2) :=
+    (List.pairwise_map (f := sig) (R := fun x y => x.2.2 ≤ y.2.2)).2 hb
+  rw [← h] at h1
+  exact (List.pairwise_map (f := sig) (R := fun x y => x.2.2 ≤ y.2.2)).1 h1
+
+theorem keys_of_sig {a b : List (Node V)} (h : a.map sig = b.map sig) :
+    a.map (·.key) = b.map (·.key) := by
+  have := congrArg (List.map Prod.fst) h
+  rw [List.map_map, List.map_map] at this
+  exact this
+
+theorem Split.of_sig {nodes nodes' : List (Node V)} {fcp : Option Nat} (h : Split nodes fcp)
+    (hm : nodes'.map sig = nodes.map sig) : Split nodes' fcp := by
+  obtain ⟨dis, con, rfl, hd, hc, hf, pd, pc⟩ := h
+  have hd' : (nodes'.take dis.length).map sig = dis.map sig := by
+    rw [List.map_take, hm, List.map_append, List.take_left' (List.length_map _)]
+  have hc' : (nodes'.drop dis.length).map sig = con.map sig := by
+    rw [List.map_drop, hm, List.map_append, List.drop_left' (List.length_map _)]
+  have hld : (nodes'.take dis.length).length = dis.length := by
+    have := congrArg List.length hd'; simpa only [List.length_map] using this
+  have hlc : (nodes'.drop dis.length).length = con.length := by
+    have := congrArg List.length hc'; simpa only [List.length_map] using this
+  refine ⟨nodes'.take dis.length, nodes'.drop dis.length, (List.take_append_drop _ _).symm,
+    ?_, ?_, ?_, pairwise_of_sig hd' pd, pairwise_of_sig hc' pc⟩
+  · intro n hn
+    obtain ⟨m, hm1, e⟩ := mem_of_sig hd' hn
+    have : m.st = n.st := congrArg (fun x => x.2.1) e
+    rw [← this]; exact hd m hm1
+  · intro n hn
+    obtain ⟨m, hm1, e⟩ := mem_of_sig hc' hn
+    have : m.st = n.st := congrArg (fun x => x.2.1) e
+    rw [← this]; exact hc m hm1
+  · rw [hf, hld]
+    by_cases hcon : con = []
+    · have : nodes'.drop dis.length = [] := by
+        rw [← List.length_eq_zero_iff, hlc, hcon]; rfl
+      rw [if_pos hcon, if_pos this]
+    · have : nodes'.drop dis.length ≠ [] := by
+        intro h0
+        rw [h0] at hlc
+        exact hcon (List.length_eq_zero_iff.1 hlc.symm)
+      rw [if_neg hcon, if_neg this]
+
+theorem NInv.of_sig {c : Cfg V} {tick : Nat} {nodes nodes' : List (Node V)} {fcp : Option Nat}
+    (h : NInv c tick nodes fcp) (hm : nodes'.map sig = nodes.map sig) : NInv c tick nodes' fcp := by
+  have hkeys : nodes'.map (·.key) = nodes.map (·.key) := keys_of_sig hm
+  refine ⟨?_, h.split.of_sig hm, hkeys ▸ h.keysNodup, ?_, ?_⟩
+  · have := congrArg List.length hm
+    simp only [List.length_map] at this
+    rw [this]; exact h.len
+  · have e : ∀ l : List (Node V), (l.filter (fun n => n.st.conn && n.st.incoming)).length =
+        ((l.map sig).filter (fun x => x.2.1.conn && x.2.1.incoming)).length := by
+      intro l; rw [List.filter_map, List.length_map]; rfl
+    rw [e, hm, ← e]; exact h.incoming
+  · intro n hn
+    obtain ⟨m, hm1, e⟩ := mem_of_sig hm hn
+    have : m.stamp = n.stamp := congrArg (fun x => x.2.2) e
+    rw [← this]; exact h.stampsLe m hm1
+
+theorem insertAt_removeAt {α} {l : List α} {pos : Nat} (x : α) (h : pos < l.length) :
+    insertAt (removeAt l pos) pos x = l.set pos x := by
+  have h1 : (l.take pos).length = pos := by rw [List.length_take]; omega
+  unfold insertAt removeAt
+  rw [List.take_left' h1, List.drop_left' h1, List.set_eq_take_append_cons_drop, if_pos h]
+
+theorem map_sig_set {nodes : List (Node V)} {pos : Nat} {node x : Node V}
+    (h : nodes[pos]? = some node) (hx : sig x = sig node) :
+    (nodes.set pos x).map sig = nodes.map sig := by
+  apply List.ext_getElem?
+  intro i
+  rw [List.map_set, List.getElem?_set]
+  by_cases hi : pos = i
+  · subst hi
+    simp only [if_true, List.length_map, List.getElem?_map, h, Option.map_some, hx]
+    rw [if_pos (List.getElem?_eq_some_iff.1 h).1]
+  · rw [if_neg hi]
+
+def UpdateValueSpec (b : Bucket V) (value : V)
+    (r : Bucket V × UpdateRes) : Prop :=
+  (r.1 = b ∧ (r.2 = .notModified ∨ r.2 = .failed .keyNonExistent)) ∨
+  (∃ pos node, b.nodes[pos]? = some node ∧
+      r = (Bucket.fcpForRemoval { b with nodes := removeAt b.nodes pos } pos, .failed .bucketFilter)) ∨
+  (∃ pos node, b.nodes[pos]? = some node ∧
+      r = ({ b with nodes := b.nodes.set pos { node with value := value } }, .updated)) ∨
+  (∃ p, b.pending = some p ∧
+      r = ({ b with pending := some { p with node := { p.node with value := value } } }, .updatedPending))
+
+theorem updateValue_cases (c : Cfg V) (b : Bucket V) (key : Nat) (value : V) :
+    UpdateValueSpec b value (b.updateValue c key value) := by
+  unfold UpdateValueSpec Bucket.updateValue
+  cases hpos : b.position key with
+  | some pos =>
+    obtain ⟨node, hnode, _⟩ := position_some hpos
+    simp only [hnode]
+    by_cases hv : node.value = value
+    · rw [if_pos hv]; simp
+    · rw [if_neg hv]
+      by_cases hf : (!c.bucketFilter value ((removeAt b.nodes pos).map (·.value))) = true
+      · rw [if_pos hf]
+        exact Or.inr (Or.inl ⟨pos, node, hnode, rfl⟩)
+      · rw [if_neg hf, insertAt_removeAt _ (List.getElem?_eq_some_iff.1 hnode).1]
+        exact Or.inr (Or.inr (Or.inl ⟨pos, node, hnode, rfl⟩))
+  | none =>
+    cases hp : b.pending with
+    | none => simp
+    | some p =>
+      simp only
+      by_cases hk : (p.node.key == key) = true
+      · rw [if_pos hk]
+        exact Or.inr (Or.inr (Or.inr ⟨p, rfl, rfl⟩))
+      · rw [if_neg hk]; simp
+
+theorem updateValue_inv {c : Cfg V} {tick : Nat} {b : Bucket V} {key : Nat} {value : V}
+    (hb : BInv c tick b) : BInv c tick (b.updateValue c key value).1 := by
+  rcases updateValue_cases c b key value with ⟨h, _⟩ | ⟨pos, node, hn, h⟩ | ⟨pos, node, hn, h⟩ |
+    ⟨p, hp, h⟩
+  · rw [h]; exact hb
+  · rw [h]; exact removed_inv hb hn
+  · rw [h]
+    have hm := map_sig_set (x := { node with value := value }) hn rfl
+    refine binv_mk ((binv_iff.1 hb).1.of_sig hm) ?_
+    have hkeys : (b.nodes.set pos { node with value := value }).map (·.key) = b.nodes.map (·.key) :=
+      keys_of_sig hm
+    intro p hp
+    show p.node.key ∉ (b.nodes.set pos { node with value := value }).map (·.key)
+    rw [hkeys]; exact hb.pendingFresh p hp
+  · rw [h]
+    refine binv_mk (binv_iff.1 hb).1 ?_
+    intro p' hp'
+    cases hp'
+    exact hb.pendingFresh p hp
+
+theorem updateValue_keys {c : Cfg V} {b : Bucket V} {key : Nat} {value : V} {P : Nat → Prop}
+    (hb : BKeys P b) : BKeys P (b.updateValue c key value).1 := by
+  rcases updateValue_cases c b key value with ⟨h, _⟩ | ⟨pos, node, hn, h⟩ | ⟨pos, node, hn, h⟩ |
+    ⟨p, hp, h⟩
+  · rw [h]; exact hb
+  · rw [h]; exact removed_keys hb
+  · rw [h]
+    refine ⟨?_, hb.2⟩
+    intro n hn'
+    rcases List.mem_or_eq_of_mem_set hn' with h1 | h1
+    · exact hb.1 n h1
+    · rw [h1]; exact hb.1 node (List.mem_of_getElem? hn)
+  · rw [h]
+    refine ⟨hb.1, ?_⟩
+    intro p' hp'
+    cases hp'
+    exact hb.2 p hp
+
+theorem updateValue_ne_panic {c : Cfg V} {b : Bucket V} {key : Nat} {value : V} :
+    (b.updateValue c key value).2 ≠ .panic ∧ (b.updateValue c key value).2 ≠ .updatedAndPromoted := by
+  rcases updateValue_cases c b key value with ⟨_, h | h⟩ | ⟨pos, node, hn, h⟩ |
+    ⟨pos, node, hn, h⟩ | ⟨p, hp, h⟩ <;> rw [h] <;> simp
+
+/-! ### table operations -/
+
+theorem TInv.setBucket_applyAt {c : Cfg V} {now : Nat} {t : Table V} {i : Nat} {b : Bucket V}
+    (h : TInv c t)
+    (hb : BInv c t.tick ((Table.applyAt c now t i).bucket i) →
+      BKeys (InBucket t.localKey i) ((Table.applyAt c now t i).bucket i) →
+      BInv c t.tick b ∧ BKeys (InBucket t.localKey i) b) :
+    TInv c ((Table.applyAt c now t i).setBucket i b) := by
+  have h1 := applyAt_inv c now t i h
+  have hb1 := h1.binv i
+  have hk1 := h1.bkeys i
+  rw [Table.applyAt_tick] at hb1
+  rw [Table.applyAt_localKey] at hk1
+  obtain ⟨h2, h3⟩ := hb hb1 hk1
+  exact h1.setBucket (by rw [Table.applyAt_tick]; exact h2) (by rw [Table.applyAt_localKey]; exact h3)
+
+theorem updateNodeStatus_tinv {c : Cfg V} {now : Nat} {t : Table V} {key : Nat} {conn : Bool}
+    {dir : Option Bool} (h : TInv c t) : TInv c (t.updateNodeStatus c now key conn dir).1 := by
+  unfold Table.updateNodeStatus
+  simp only
+  cases hbi : bucketIndex t.bump.localKey key with
+  | none => exact h.bump
+  | some i =>
+    simp only
+    exact h.bump.setBucket_applyAt (fun hb hk => ⟨updateStatus_inv hb, updateStatus_keys hk⟩)
+
+theorem remove_tinv {c : Cfg V} {now : Nat} {t : Table V} {key : Nat} (h : TInv c t) :
+    TInv c (t.remove c now key).1 := by
+  unfold Table.remove
+  simp only
+  cases hbi : bucketIndex t.bump.localKey key with
+  | none => exact h.bump
+  | some i =>
+    simp only
+    exact h.bump.setBucket_applyAt (fun hb hk => ⟨remove_inv hb, remove_keys hk⟩)
+
+theorem entryTouch_tinv {c : Cfg V} {now : Nat} {t : Table V} {key : Nat} (h : TInv c t) :
+    TInv c (t.entryTouch c now key) := by
+  unfold Table.entryTouch
+  simp only
+  cases hbi : bucketIndex t.bump.localKey key with
+  | none => exact h.bump
+  | some i => exact applyAt_inv c now _ i h.bump
+
+theorem foldl_applyAt_tinv {c : Cfg V} {now : Nat} (l : List Nat) (t : Table V) (h : TInv c t) :
+    TInv c (l.foldl (fun t i => Table.applyAt c now t i) t) := by
+  induction l generalizing t with
+  | nil => exact h
+  | cons i l ih => exact ih _ (applyAt_inv c now t i h)
+
+theorem applyAll_tinv {c : Cfg V} {now : Nat} {t : Table V} (h : TInv c t) :
+    TInv c (t.applyAll c now) := foldl_applyAt_tinv _ _ h.bump
+
+theorem takeApplied_tinv {c : Cfg V} {t : Table V} (h : TInv c t) : TInv c t.takeApplied.1 := by
+  unfold Table.takeApplied
+  cases ha : t.applied with
+  | nil => exact h
+  | cons a rest => exact h.congr rfl rfl (Nat.le_refl _)
+
+theorem updateNode_tinv {c : Cfg V} {now : Nat} {t : Table V} {key : Nat} {value : V}
+    {state : Option Bool} (h : TInv c t) : TInv c (t.updateNode c now key value state).1 := by
+  unfold Table.updateNode
+  simp only
+  cases hbi : bucketIndex t.bump.localKey key with
+  | none => exact h.bump
+  | some i =>
+    simp only
+    by_cases hp : (!Table.passesTableFilter c t.bump key value) = true
+    · rw [if_pos hp]
+      exact h.bump.setBucket_applyAt (fun hb hk => ⟨remove_inv hb, remove_keys hk⟩)
+    · rw [if_neg hp]
+      by_cases hf : (Bucket.updateValue c ((Table.applyAt c now t.bump i).bucket i) key value).snd.isFailed = true
+      · rw [if_pos hf]
+        exact h.bump.setBucket_applyAt (fun hb hk => ⟨updateValue_inv hb, updateValue_keys hk⟩)
+      · rw [if_neg hf]
+        cases state with
+        | none =>
+          exact h.bump.setBucket_applyAt (fun hb hk => ⟨updateValue_inv hb, updateValue_keys hk⟩)
+        | some s =>
+          exact h.bump.setBucket_applyAt (fun hb hk =>
+            ⟨updateStatus_inv (updateValue_inv hb), updateStatus_keys (updateValue_keys hk)⟩)
+
+theorem insertOrUpdate_tinv {c : Cfg V} {now : Nat} {t : Table V} {key : Nat} {value : V}
+    {st : Status} (h : TInv c t) : TInv c (t.insertOrUpdate c now key value st).1 := by
+  unfold Table.insertOrUpdate
+  simp only
+  cases hbi : bucketIndex t.bump.localKey key with
+  | none => exact h.bump
+  | some i =>
+    simp only
+    by_cases hp : (!Table.passesTableFilter c t.bump key value) = true
+    · rw [if_pos hp]
+      exact h.bump.setBucket_applyAt (fun hb hk => ⟨remove_inv hb, remove_keys hk⟩)
+    · rw [if_neg hp]
+      by_cases hpos : (((Table.applyAt c now t.bump i).bucket i).position key).isNone = true
+      · rw [if_pos hpos]
+        exact h.bump.setBucket_applyAt (fun hb hk => ⟨insert_inv hb rfl, insert_keys hk hbi⟩)
+      · rw [if_neg hpos]
+        by_cases hf : (Bucket.updateStatus c now t.bump.tick ((Table.applyAt c now t.bump i).bucket i)
+            key st.conn (some st.incoming)).snd.isFailed = true
+        · rw [if_pos hf]
+          exact h.bump.setBucket_applyAt (fun hb hk => ⟨updateStatus_inv hb, updateStatus_keys hk⟩)
+        · rw [if_neg hf]
+          exact h.bump.setBucket_applyAt (fun hb hk =>
+            ⟨updateValue_inv (updateStatus_inv hb), updateValue_keys (updateStatus_keys hk)⟩)
+
+theorem closest_tinv {c : Cfg V} {now : Nat} {t : Table V} {target : Nat} (h : TInv c t) :
+    TInv c (t.closest c now target).1 := by
+  unfold Table.closest
+  generalize bucketOrder (t.localKey ^^^ target) = l
+  have : ∀ (l : List Nat) (acc : Table V × List (Node V)), TInv c acc.1 →
+      TInv c (l.foldl (fun (acc : Table V × List (Node V)) i =>
+        let t1 := Table.applyAt c now acc.1 i
+        (t1, acc.2 ++ sortByDist target (t1.bucket i).nodes)) acc).1 := by
+    intro l
+    induction l with
+    | nil => intro acc h; exact h
+    | cons i l ih =>
+      intro acc h
+      rw [List.foldl_cons]
+      exact ih _ (applyAt_inv c now acc.1 i h)
+  exact this l _ h.bump
+
+theorem applyForDistances_tinv {c : Cfg V} {now m : Nat} (ds : List Nat) (t : Table V)
+    (count : Nat) (h : TInv c t) : TInv c (applyForDistances c now m ds t count) := by
+  induction ds generalizing t count with
+  | nil => exact h
+  | cons d ds ih =>
+    unfold applyForDistances
+    simp only
+    have hset : TInv c (t.setBucket (d - 1) ((t.bucket (d - 1)).applyPending c now t.tick).1) :=
+      h.setBucket (applyPending_inv c now t.tick _ (h.binv _)) (applyPending_keys (h.bkeys _))
+    cases ha : ((t.bucket (d - 1)).applyPending c now t.tick).2 with
+    | none => simp only; exact ih _ _ hset
+    | some a =>
+      simp only
+      have hset' : TInv c { t.setBucket (d - 1) ((t.bucket (d - 1)).applyPending c now t.tick).1 with
+          applied := t.applied ++ [a] } := hset.congr rfl rfl (Nat.le_refl _)
+      split
+      · exact hset'
+      · exact ih _ _ hset'
+
+theorem nodesByDistances_tinv {c : Cfg V} {now : Nat} {t : Table V} {ds : List Nat} {m : Nat}
+    (h : TInv c t) : TInv c (t.nodesByDistances c now ds m).1 := by
+  unfold Table.nodesByDistances
+  exact applyForDistances_tinv _ _ _ h.bump
+
+/-- Every table operation preserves the table invariant. -/
+theorem step_tinv (c : Cfg V) (t : Table V) (op : Op V) (h : TInv c t) : TInv c (t.step c op) := by
+  cases op with
+  | insertOrUpdate now key v st => exact insertOrUpdate_tinv h
+  | updateNode now key v s => exact updateNode_tinv h
+  | updateNodeStatus now key conn dir => exact updateNodeStatus_tinv h
+  | remove now key => exact remove_tinv h
+  | entry now key => exact entryTouch_tinv h
+  | iter now => exact applyAll_tinv h
+  | closest now target => exact closest_tinv h
+  | nodesByDistances now ds m => exact nodesByDistances_tinv h
+  | takeApplied => exact takeApplied_tinv h
+
+
+/-! ### global uniqueness -/
+
+theorem nodup_flatMap_of {α β} {l : List α} {f : α → List β} (h1 : ∀ x ∈ l, (f x).Nodup)
+    (h2 : l.Pairwise (fun a b => ∀ k ∈ f a, k ∉ f b)) : (l.flatMap f).Nodup := by
+  induction l with
+  | nil => simp
+  | cons a l ih =>
+    rw [List.flatMap_cons, List.nodup_append]
+    rw [List.pairwise_cons] at h2
+    refine ⟨h1 a (List.mem_cons_self ..), ih (fun x hx => h1 x (List.mem_cons_of_mem _ hx)) h2.2, ?_⟩
+    intro k hk k' hk' e
+    subst e
+    obtain ⟨b, hb, hkb⟩ := List.mem_flatMap.1 hk'
+    exact h2.1 b hb k hk hkb
+
+/-- keys of a bucket: stored nodes followed by the pending node -/
+def Bucket.keysP (b : Bucket V) : List Nat :=
+  b.nodes.map (·.key) ++ (match b.pending with | some p => [p.node.key] | none => [])
+
+theorem allKeys_eq (t : Table V) : t.allKeys = t.buckets.flatMap Bucket.keysP := rfl
+
+theorem BKeys.of_mem_keysP {P : Nat → Prop} {b : Bucket V} (h : BKeys P b) {k : Nat}
+    (hk : k ∈ b.keysP) : P k := by
+  unfold Bucket.keysP at hk
+  rcases List.mem_append.1 hk with hk | hk
+  · obtain ⟨n, hn, rfl⟩ := List.mem_map.1 hk
+    exact h.1 n hn
+  · cases hp : b.pending with
+    | none => rw [hp] at hk; cases hk
+    | some p =>
+      rw [hp] at hk
+      simp only [List.mem_singleton] at hk
+      rw [hk]; exact h.2 p hp
+
+theorem BInv.keysP_nodup {c : Cfg V} {tick : Nat} {b : Bucket V} (h : BInv c tick b) :
+    b.keysP.Nodup := by
+  unfold Bucket.keysP
+  cases hp : b.pending with
+  | none => simpa using h.keysNodup
+  | some p =>
+    simp only
+    rw [List.nodup_append]
+    refine ⟨h.keysNodup, by simp, ?_⟩
+    intro a ha b' hb' e
+    simp only [List.mem_singleton] at hb'
+    subst e; subst hb'
+    exact h.pendingFresh p hp ha
+
+theorem bucket_eq_getElem (t : Table V) (i : Nat) (h : i < t.buckets.length) :
+    t.bucket i = t.buckets[i] := by
+  simp [Table.bucket, List.getD_eq_getElem?_getD, List.getElem?_eq_getElem h]
+
+theorem bucketIndex_self (k : Nat) : bucketIndex k k = none := by
+  simp [bucketIndex]
+
+theorem tinv_global_unique {c : Cfg V} {t : Table V} (h : TInv c t) :
+    t.allKeys.Nodup ∧ t.localKey ∉ t.allKeys := by
+  rw [allKeys_eq]
+  constructor
+  · apply nodup_flatMap_of
+    · intro b hb
+      obtain ⟨i, hi, rfl⟩ := List.mem_iff_getElem.1 hb
+      rw [← bucket_eq_getElem t i hi]
+      exact (h.binv i).keysP_nodup
+    · rw [List.pairwise_iff_getElem]
+      intro i j hi hj hij k hk1 hk2
+      rw [← bucket_eq_getElem t i hi] at hk1
+      rw [← bucket_eq_getElem t j hj] at hk2
+      have e1 : bucketIndex t.localKey k = some i := (h.bkeys i).of_mem_keysP hk1
+      have e2 : bucketIndex t.localKey k = some j := (h.bkeys j).of_mem_keysP hk2
+      rw [e1] at e2
+      cases e2
+      omega
+  · intro hm
+    obtain ⟨b, hb, hk⟩ := List.mem_flatMap.1 hm
+    obtain ⟨i, hi, rfl⟩ := List.mem_iff_getElem.1 hb
+    rw [← bucket_eq_getElem t i hi] at hk
+    have e1 : bucketIndex t.localKey t.localKey = some i := (h.bkeys i).of_mem_keysP hk
+    rw [bucketIndex_self] at e1
+    cases e1
+
+theorem foldl_step_tinv (c : Cfg V) (ops : List (Op V)) (t : Table V) (h : TInv c t) :
+    TInv c (ops.foldl (Table.step c) t) := by
+  induction ops generalizing t with
+  | nil => exact h
+  | cons op ops ih => exact ih _ (step_tinv c t op h)
+
+/-! ### the `unreachable!()` arms -/
+
+theorem insert_ne_nodeExists {c : Cfg V} {now : Nat} {b : Bucket V} {node : Node V}
+    (hpos : b.position node.key = none) : (Bucket.insert c now b node).2 ≠ .nodeExists := by
+  intro he
+  rcases insert_cases c now b node with ⟨_, _, _, h3, _⟩ | ⟨n0, hr, _⟩ | ⟨h, _⟩
+  · have := h3 he; rw [hpos] at this; cases this
+  · rw [hr] at he; cases he
+  · rw [h] at he; cases he
+
+theorem applyAt_binv {c : Cfg V} {now : Nat} {t : Table V} (h : TInv c t) (i : Nat) :
+    BInv c t.tick ((Table.applyAt c now t i).bucket i) := by
+  have := (applyAt_inv c now t i h).binv i
+  rwa [Table.applyAt_tick] at this
+
+theorem updateNodeStatus_ne_panic {c : Cfg V} {now : Nat} {t : Table V} {key : Nat} {conn : Bool}
+    {dir : Option Bool} (h : TInv c t) : (t.updateNodeStatus c now key conn dir).2 ≠ .panic := by
+  unfold Table.updateNodeStatus
+  simp only
+  cases hbi : bucketIndex t.bump.localKey key with
+  | none => simp
+  | some i =>
+    simp only
+    exact updateStatus_ne_panic (applyAt_binv h.bump i)
+
+theorem updateNode_ne_panic {c : Cfg V} {now : Nat} {t : Table V} {key : Nat} {value : V}
+    {state : Option Bool} (h : TInv c t) : (t.updateNode c now key value state).2 ≠ .panic := by
+  unfold Table.updateNode
+  simp only
+  cases hbi : bucketIndex t.bump.localKey key with
+  | none => simp
+  | some i =>
+    simp only
+    have hb := applyAt_binv (now := now) h.bump i
+    by_cases hp : (!Table.passesTableFilter c t.bump key value) = true
+    · rw [if_pos hp]; simp
+    · rw [if_neg hp]
+      have hu := updateValue_ne_panic (c := c) (b := (Table.applyAt c now t.bump i).bucket i)
+        (key := key) (value := value)
+      have hb1 := updateValue_inv (key := key) (value := value) hb
+      by_cases hf : (Bucket.updateValue c ((Table.applyAt c now t.bump i).bucket i) key value).snd.isFailed = true
+      · rw [if_pos hf]
+        exact hu.1
+      · rw [if_neg hf]
+        cases state with
+        | none =>
+          simp only
+          generalize (Bucket.updateValue c ((Table.applyAt c now t.bump i).bucket i) key value).snd = ur at hu hf
+          cases ur <;> simp_all [UpdateRes.isFailed]
+        | some s =>
+          simp only
+          have hs := updateStatus_ne_panic (now := now) (key := key) (conn := s) (dir := none) hb1
+          generalize (Bucket.updateStatus c now t.bump.tick
+            (Bucket.updateValue c ((Table.applyAt c now t.bump i).bucket i) key value).fst key s none).snd = sr at hs
+          generalize (Bucket.updateValue c ((Table.applyAt c now t.bump i).bucket i) key value).snd = ur at hu hf
+          cases ur <;> cases sr <;> simp_all [UpdateRes.isFailed]
+
+theorem insertOrUpdate_ne_panic {c : Cfg V} {now : Nat} {t : Table V} {key : Nat} {value : V}
+    {st : Status} (h : TInv c t) : (t.insertOrUpdate c now key value st).2 ≠ .panic := by
+  unfold Table.insertOrUpdate
+  simp only
+  cases hbi : bucketIndex t.bump.localKey key with
+  | none => simp
+  | some i =>
+    simp only
+    have hb := applyAt_binv (now := now) h.bump i
+    by_cases hp : (!Table.passesTableFilter c t.bump key value) = true
+    · rw [if_pos hp]; simp
+    · rw [if_neg hp]
+      by_cases hpos : (((Table.applyAt c now t.bump i).bucket i).position key).isNone = true
+      · rw [if_pos hpos]
+        simp only
+        have hpos' : ((Table.applyAt c now t.bump i).bucket i).position key = none := by
+          simpa using hpos
+        have hne := insert_ne_nodeExists (c := c) (now := now)
+          (node := { key := key, value := value, st := st, stamp := t.bump.tick }) hpos'
+        generalize (Bucket.insert c now ((Table.applyAt c now t.bump i).bucket i)
+          { key := key, value := value, st := st, stamp := t.bump.tick }).snd = r at hne
+        cases r <;> simp_all
+      · rw [if_neg hpos]
+        have hs := updateStatus_ne_panic (now := now) (key := key) (conn := st.conn)
+          (dir := some st.incoming) hb
+        by_cases hf : (Bucket.updateStatus c now t.bump.tick ((Table.applyAt c now t.bump i).bucket i)
+            key st.conn (some st.incoming)).snd.isFailed = true
+        · rw [if_pos hf]; simp
+        · rw [if_neg hf]
+          simp only
+          have hu := updateValue_ne_panic (c := c) (b := (Bucket.updateStatus c now t.bump.tick
+            ((Table.applyAt c now t.bump i).bucket i) key st.conn (some st.incoming)).fst)
+            (key := key) (value := value)
+          generalize (Bucket.updateValue c (Bucket.updateStatus c now t.bump.tick
+            ((Table.applyAt c now t.bump i).bucket i) key st.conn (some st.incoming)).fst
+            key value).snd = ur at hu
+          generalize (Bucket.updateStatus c now t.bump.tick ((Table.applyAt c now t.bump i).bucket i)
+            key st.conn (some st.incoming)).snd = sr at hs hf
+          cases ur <;> cases sr <;> simp_all [UpdateRes.isFailed]
+
+/-! ### pending-slot semantics -/
+
+theorem position_head {b : Bucket V} {n0 : Node V} {rest : List (Node V)}
+    (hn : b.nodes = n0 :: rest) : b.position n0.key = some 0 := by
+  simp [Bucket.position, hn, List.findIdx?_cons]
+
+theorem updateStatus_head_pending {c : Cfg V} {now tick : Nat} {b : Bucket V} {n0 : Node V}
+    {rest : List (Node V)} {dir : Option Bool} (hn : b.nodes = n0 :: rest) (hinv : BInv c tick b) :
+    (b.updateStatus c now tick n0.key true dir).1.pending = none := by
+  have hold : b.nodes[0]? = some n0 := by rw [hn]; rfl
+  rw [(updateStatus_some (position_head hn) hold).1]
+  have hpn : (usBucket b 0 n0 true).pending = none := rfl
+  have hnf : (usBucket b 0 n0 true).isFull = false := by
+    apply isFull_false_iff.2
+    show (removeAt b.nodes 0).length < 16
+    rw [removeAt_length _ _ (by rw [hn]; simp)]
+    have := hinv.len; omega
+  rcases insert_cases c now (usBucket b 0 n0 true) (usNode tick n0 true dir) with
+    ⟨h1, _⟩ | ⟨k, _, _, hfull, _⟩ | ⟨_, _, _, _, hpend, _⟩
+  · rw [h1]; rfl
+  · rw [hnf] at hfull; cases hfull
+  · cases hp : (Bucket.insert c now (usBucket b 0 n0 true) (usNode tick n0 true dir)).1.pending with
+    | none => rfl
+    | some p' =>
+      have := (hpend p' hp).1
+      rw [hpn] at this; cases this
+
 end Discv5.KB
